@@ -6,6 +6,7 @@ import (
 	"math/big"
 	"sort"
 	"strings"
+	"time"
 
 	abci "github.com/cometbft/cometbft/abci/types"
 
@@ -559,9 +560,20 @@ func (m *Module) newEpoch(am *assetModel, denom string) {
 
 // ---- block begin -----------------------------------------------------------------------
 
+// SetGenesisPrevTime tells the model that the genesis carries another previous block time
+// than the genesis time (a genesis that leaves the field unset carries the zero time); it
+// has no effect once the first block began.
+func (m *Module) SetGenesisPrevTime(t time.Time) {
+	if !m.begun {
+		m.prevTime = t
+	}
+}
+
 func (m *Module) OnBeginBlock(w *engine.World, ph *engine.Phase) {
+	// time.Time.Sub saturates, as it does in the module
 	delta := int64(ph.Time.Sub(m.prevTime))
 	m.prevTime = ph.Time
+	m.begun = true
 	m.touched = map[string]bool{}
 
 	// "otherwise back to the sender in the first block whose height equals the expiration height"
